@@ -38,10 +38,49 @@ import (
 type recMgr struct {
 	*nginx.FakeManager
 	files map[string][]byte
+	// every distinct (name, content) that was on disk at some Reload, and the file set at each Reload
+	versions []fileVersion
+	index    map[string]int
+	snaps    [][]int
+}
+
+type fileVersion struct {
+	name    string
+	content []byte
 }
 
 func newRecMgr() *recMgr {
-	return &recMgr{FakeManager: nginx.NewFakeManager("/etc/nginx"), files: map[string][]byte{}}
+	return &recMgr{FakeManager: nginx.NewFakeManager("/etc/nginx"), files: map[string][]byte{}, index: map[string]int{}}
+}
+
+// snapshot records the set of files NGINX would load now.
+func (m *recMgr) snapshot() {
+	var names []string
+	for n := range m.files {
+		names = append(names, n)
+	}
+	sort.Strings(names)
+	var snap []int
+	for _, n := range names {
+		k := n + "\x00" + string(m.files[n])
+		i, ok := m.index[k]
+		if !ok {
+			i = len(m.versions)
+			m.index[k] = i
+			m.versions = append(m.versions, fileVersion{n, cp(m.files[n])})
+		}
+		snap = append(snap, i)
+	}
+	if l := len(m.snaps); l > 0 && fmt.Sprint(m.snaps[l-1]) == fmt.Sprint(snap) {
+		return
+	}
+	m.snaps = append(m.snaps, snap)
+}
+
+// Reload is where NGINX reads the files: snapshot the set.
+func (m *recMgr) Reload(_ bool) error {
+	m.snapshot()
+	return nil
 }
 
 func cp(b []byte) []byte { return append([]byte(nil), b...) }
@@ -110,7 +149,9 @@ type FileObs struct {
 }
 
 type Obs struct {
-	Files    []FileObs `json:"files"`
+	Files    []FileObs `json:"files"`           // the final file set
+	Old      []FileObs `json:"old,omitempty"`   // earlier versions of files that were on disk at some reload
+	Snaps    [][]int   `json:"snaps,omitempty"` // the file set at each reload before the last: indexes into files ++ old
 	Accepted []string  `json:"accepted"`
 	Errors   []string  `json:"errors,omitempty"`
 	Problems int       `json:"problems"`
@@ -157,7 +198,7 @@ var (
 	namePool = []string{"c", "b-c", "a", "a-b", "web", "c.d", "b"}
 	hostPool = []string{"c.com", "b-c.com", "a.c.com", "x.example.com", "y.example.com", "b-c.example.com", "d.c.com"}
 	svcPool  = []string{"svc", "svc-b", "b-svc", "c", "ext"}
-	secPool  = []string{"tls", "tls-b", "jwk", "htpasswd", "ca", "apikey"}
+	secPool  = []string{"tls", "tls-b", "jwk", "htpasswd", "ca", "apikey", "oidc", "license"}
 	polPool  = []string{"rl", "rl-b", "acl", "jwt", "basic", "imtls", "emtls", "apikey", "b-rl"}
 	upPool   = []string{"u", "u-1", "app", "b", "c-b", "b-c"}
 	pathPool = []string{"/", "/a", "/a/b", "/tea", "/a-b", "/a_b", "/x.y", "/coffee", "/a/b/c"}
@@ -243,6 +284,12 @@ func genDeps(r *vh.Rng, w *world) {
 			case "apikey":
 				sec.Type = secrets.SecretTypeAPIKey
 				sec.Data = map[string][]byte{"client1": []byte("key1"), "client-2": []byte("key2")}
+			case "oidc":
+				sec.Type = secrets.SecretTypeOIDC
+				sec.Data = map[string][]byte{"client-secret": []byte("secret")}
+			case "license":
+				sec.Type = secrets.SecretTypeLicense
+				sec.Data = map[string][]byte{"license.jwt": []byte("eyJhbGciOi.J9.x")}
 			}
 			if st == "invalid" {
 				for k := range sec.Data {
@@ -383,7 +430,14 @@ func ingAnnotations(r *vh.Rng, fl Flags, svcsUsed []string, minion bool) map[str
 	add(1, 6, "nginx.org/rewrites", "serviceName="+svcsUsed[0]+" rewrite=/beans/")
 	add(1, 6, "nginx.org/path-regex", vh.Pick(r, []string{"case_sensitive", "case_insensitive", "exact"}))
 	add(1, 8, "nginx.org/use-cluster-ip", "true")
-	add(1, 5, "nginx.org/basic-auth-secret", "htpasswd")
+	// the auth annotations may name an existing, valid Secret of ANY supported type
+	authSecret := func(usual string) string {
+		if r.Chance(1, 3) {
+			return vh.Pick(r, secPool)
+		}
+		return usual
+	}
+	add(1, 5, "nginx.org/basic-auth-secret", authSecret("htpasswd"))
 	add(1, 6, "nginx.org/basic-auth-realm", "Cafe App")
 	if r.Chance(1, 4) {
 		a["nginx.org/limit-req-rate"] = vh.Pick(r, []string{"10r/s", "200r/m"})
@@ -411,7 +465,7 @@ func ingAnnotations(r *vh.Rng, fl Flags, svcsUsed []string, minion bool) map[str
 		add(1, 10, "nginx.org/proxy-set-headers", "X-Forwarded-ABC,X-Val: abc")
 	}
 	if fl.Plus {
-		add(1, 5, "nginx.com/jwt-key", "jwk")
+		add(1, 5, "nginx.com/jwt-key", authSecret("jwk"))
 		add(1, 6, "nginx.com/jwt-realm", "Cafe")
 		add(1, 8, "nginx.com/jwt-token", "$cookie_auth_token")
 		add(1, 8, "nginx.com/jwt-login-url", "https://login.example.com")
@@ -1257,6 +1311,7 @@ func runWorld(w *world) (obs Obs) {
 		TemplateExecutor: te1, TemplateExecutorV2: te2, IsPlus: fl.Plus, IsWildcardEnabled: fl.Wildcard,
 		IsDynamicSSLReloadEnabled: fl.DynSSL, IsDynamicWeightChangesReloadEnabled: fl.DynWeights, NginxVersion: nginx.NewVersion(ver),
 	})
+	cnf.EnableReloads()
 	v := k8s.NewVerifC07(k8s.VerifC07Opts{IsPlus: fl.Plus, TLSPassthrough: fl.TLSPassthrough, IPV6Disabled: fl.IPV6Disabled,
 		InternalRoutes: fl.InternalRoutes, Prometheus: false, Latency: false, IngressClass: "nginx", Configurator: cnf})
 	for _, s := range w.svcs {
@@ -1327,27 +1382,36 @@ func runWorld(w *world) (obs Obs) {
 	obs.Accepted = v.Accepted()
 	sort.Strings(obs.Accepted)
 	sort.Strings(obs.Errors)
-	var names []string
-	for n := range mgr.files {
-		names = append(names, n)
-	}
-	sort.Strings(names)
-	for _, n := range names {
-		b := mgr.files[n]
+	mgr.snapshot() // the end state
+	mk := func(n string, b []byte) FileObs {
 		f := FileObs{Name: n}
-		ascii := true
 		for _, c := range b {
 			if !(c == 9 || c == 10 || (c >= 32 && c < 127)) {
-				ascii = false
-				break
+				f.Bytes = vh.Bytes(string(b))
+				return f
 			}
 		}
-		if ascii {
-			f.Text = string(b)
-		} else {
-			f.Bytes = vh.Bytes(string(b))
+		f.Text = string(b)
+		return f
+	}
+	final := mgr.snaps[len(mgr.snaps)-1]
+	pos := map[int]int{}
+	for _, vi := range final {
+		pos[vi] = len(obs.Files)
+		obs.Files = append(obs.Files, mk(mgr.versions[vi].name, mgr.versions[vi].content))
+	}
+	for vi, fv := range mgr.versions {
+		if _, ok := pos[vi]; !ok {
+			pos[vi] = len(final) + len(obs.Old)
+			obs.Old = append(obs.Old, mk(fv.name, fv.content))
 		}
-		obs.Files = append(obs.Files, f)
+	}
+	for _, sn := range mgr.snaps[:len(mgr.snaps)-1] {
+		var t []int
+		for _, vi := range sn {
+			t = append(t, pos[vi])
+		}
+		obs.Snaps = append(obs.Snaps, t)
 	}
 	return obs
 }
@@ -1538,8 +1602,7 @@ func main() {
 		out.Emit(runCase(a.Seed, id, "paths", 0))
 		id++
 	}
-	np := payloadCount(a.Seed, a.Tier)
-	for k := 0; k < np; k++ {
+	for _, k := range payloadKs(a.Seed, a.Tier) {
 		out.Emit(runCase(a.Seed, id, "payload", k))
 		id++
 	}
